@@ -42,7 +42,8 @@ expected_refused() {
   case "$(basename "$(dirname "$1")")/$(basename "$1")" in
     A1/patch3.diff)        echo "CfgBDHP CfgDHP" ;;   # hasDHVals extracted from dhCfg/setDHCfg (reflection idiom)
     harmless/h12_refl_helper.diff) echo "CfgBUP" ;;           # hasBucketVals extracted from bucketCfg/setBucketCfg (reflection idiom)
-    harmless/h15_local_const.diff) echo "CfgBDHP CfgBHP CfgDHP CfgHP CfgHash" ;; # local const declaration in hashConfig.SetDefaults
+    # harmless/h15_local_const.diff: local const declarations are substituted by tools/extract/code_desugar.go
+    # since the robustness round (notes/robust.md) — nothing is refused any more
     *)                     echo "" ;;
   esac
 }
